@@ -107,7 +107,8 @@ def pointer_file_reused_before_catalogue(recs, k):
             unlinked.add(x[1])
         elif x[0] == "C" and x[1] in unlinked and x[1].startswith("log_"):
             open_window = x[1]
-        elif x[0] == "W" and x[1] == "index":
+        elif x[0] == "W" and x[1] == "index" and not (x[2] == 0 and len(x[3]) <= 8):
+            # (the 8-byte write at offset 0 is the last-applied index, not the catalogue)
             open_window = None
             unlinked.clear()
     return open_window is not None
